@@ -38,10 +38,15 @@ def run(tier):
             p.insert(rnd.randrange(len(p) + 1), "bogus rax")  # failing programs must fail identically
         progs.append("\n".join(p))
     # a few programs long enough to make a library-managed buffer GROW (several times) while other threads create, use and destroy
-    # their own instances: on the 8 KiB caller buffers they fail identically everywhere, on library buffers they grow
+    # their own instances: on the 32 KiB caller buffers the longest fail identically everywhere, on library buffers they grow
     progs_grow = list(progs)
     for k, nlines in enumerate((650, 900, 1500, 3000, 7000)):
         progs_grow[10 + 17 * k] = "\n".join("mov r%d, 0x11223344556677%02x" % (8 + (i % 8), i & 0xff) for i in range(nlines))
+    # under ThreadSanitizer the long programs run on (32 KiB) caller buffers only (THREADS_BIG_EXT_ONLY): more than BUFSIZ of code per
+    # instance, e.g. for the binary-file output, without mremap
+    progs = list(progs)
+    for k, nlines in enumerate((900, 1500, 2200)):
+        progs[12 + 19 * k] = "\n".join("mov r%d, 0x11223344556677%02x" % (8 + (i % 8), (i * 7 + k) & 0xff) for i in range(nlines))
     firsts = sorted(set(l[0] for l in lines))
     pf = os.path.join(common.workdir(), "c18-progs.txt")
     # (not under ThreadSanitizer: it does not follow mremap, so memory that one thread's growth releases and another thread's
@@ -68,6 +73,9 @@ def run(tier):
     env = dict(os.environ)
     env.update(common.SAN_ENV)
     env["TSAN_OPTIONS"] = "halt_on_error=0:second_deadlock_stack=1:exitcode=0:history_size=4"
+    tdir = os.path.join(common.workdir(), "c18-files")
+    os.makedirs(tdir, exist_ok=True)
+    env["THREADS_DIR"] = tdir  # thread-private files for the file entry points and asm_create_bin_file
 
     timeouts = [0]
 
@@ -77,7 +85,8 @@ def run(tier):
         if timeouts[0] >= 2:  # two runs hit the (100x) time bound: the remaining ones are not started (inconclusive, like a timeout)
             return -999, "", "skipped after two timeouts"
         try:
-            r = subprocess.run([binary, pf if fl == "tsan" else pfg, str(T), str(iters), str(seed), str(stag)] + extra, capture_output=True, text=True, env=env, timeout=300, errors="replace")
+            e2 = dict(env, THREADS_BIG_EXT_ONLY="1") if fl == "tsan" else env
+            r = subprocess.run([binary, pf if fl == "tsan" else pfg, str(T), str(iters), str(seed), str(stag)] + extra, capture_output=True, text=True, env=e2, timeout=300, errors="replace")
             return r.returncode, r.stdout, r.stderr
         except subprocess.TimeoutExpired:
             timeouts[0] += 1
@@ -134,8 +143,8 @@ def run(tier):
         if not bad:
             v.distinct((fl, T, seed))
             v.sample({"build": fl, "threads": T, "iterations_per_thread": iters, "operations": int(t[3]), "mismatches": 0, "tsan_reports": 0})
-    v.cov["rule"] = ("N in {2,4,8,16} threads released by a barrier with staggered starts, each running create -> random option setters -> assemble (plain / chunk fitting / counting; 200 programs over lines of every "
-                     "first letter of the lookup tables, some failing) -> compare with the single-threaded reference -> destroy on private buffers; plus thousands of COLD starts (a fresh process per trial whose first library calls are made concurrently by 2-16 threads released by a spin barrier with 0-5000 ns skew, uninstrumented -O0 build), with random sched_yield/nanosleep between API calls; the reference is "
+    v.cov["rule"] = ("N in {2,4,8,16} threads released by a barrier with staggered starts, each running create -> random option setters (individual or asm_set_all / asm_sib) -> assemble (plain / chunk fitting / counting; through the string entry points, the FILE entry points on a thread-private file or the deprecated aliases; debug output on in one call of eight; 200 programs over lines of every "
+                     "first letter of the lookup tables, some failing, some of 650-7000 lines) -> in half of the iterations asm_create_bin_file to a thread-private path, read back and compared with the code -> compare with the single-threaded reference -> destroy on private buffers; plus thousands of COLD starts (a fresh process per trial whose first library calls are made concurrently by 2-16 threads released by a spin barrier with 0-5000 ns skew, uninstrumented -O0 build), with random sched_yield/nanosleep between API calls; the reference is "
                      "computed in a forked child so the first-ever asm_create_instance calls (the only moment the global tables change value) overlap in the threads; %d runs under ThreadSanitizer + runs under ASan; "
                      "reports de-duplicated by library frames; distinct = clean (build, threads, seed) runs" % nrep)
     v.cov["exhaustive"] = False
